@@ -581,6 +581,16 @@ class W09:
             if k == "abort_scan":
                 self.do_abort_scan(op[1], op[2], op[3], op[4])
                 continue
+            try:
+                self.seq_op(k, op)
+            except kernel.StepLimitExceeded:
+                # some scan inside this op does not terminate (C01's subject): the world stops here
+                self.aborted = True
+        self.opi = len(self.w["ops"])
+        return self.finish(base_threads)
+
+    def seq_op(self, k, op):
+        if True:
             with lib_run(self.w, self.opi, self.interleavings):
                 if k == "new":
                     self.new_scanner(op[1])
@@ -622,7 +632,9 @@ class W09:
                     importlib.import_module("multidecoder.decoders." + op[1])
                 else:
                     raise Harness("unknown op " + k)
-        self.opi = len(self.w["ops"])
+    def finish(self, base_threads):
+        import threading
+
         self.counters["aborted_after_hang"] = int(self.aborted)
         # nobody but its owner changes a result
         for key, dg, tree, mutated in self.stored:
